@@ -631,7 +631,7 @@ inline std::string writeFailure(const std::string& dir, const std::string& id, c
     std::ofstream f(path);
     std::string w = why;
     for (auto& ch : w)
-        if (ch == '\n')
+        if (ch == '\n' || static_cast<unsigned char>(ch) < 0x20 || static_cast<unsigned char>(ch) >= 0x7f)
             ch = ' ';
     f << "# property " << id << "\n# why: " << w << "\n" << serialized;
     return path;
